@@ -2,7 +2,7 @@ import copy
 
 from mindsdb_sql import Latest, OrderBy, NullConstant
 from mindsdb_sql.exceptions import PlanningException
-from mindsdb_sql.parser.ast import (Select, Identifier, BetweenOperation, Join, Star, BinaryOperation, Constant)
+from mindsdb_sql.parser.ast import (Select, Identifier, BetweenOperation, Join, Star, BinaryOperation, Constant, NativeQuery)
 from mindsdb_sql.planner import utils
 from mindsdb_sql.planner.steps import (JoinStep, LimitOffsetStep, MultipleSteps, MapReduceStep,
                                        ApplyTimeseriesPredictorStep)
@@ -135,6 +135,9 @@ class PlanJoinTSPredictorQuery:
 
         predictor_namespace, predictor = self.planner.get_predictor_namespace_and_name_from_identifier(join_right)
         table = join_left
+        if not isinstance(table, (Identifier, NativeQuery)):
+            # the data for the model is fetched with queries FROM this table
+            raise PlanningException(f'Time series predictor has to be joined with a table, found: {table}')
 
         aliased_fields = self.get_aliased_fields(query.targets)
 
